@@ -25,7 +25,13 @@ def recursiveCases : List String :=
 def diffEnvBody : String :=
   String.join [
     "(block (if _ (== (. v0 oldEnv) (. starlark None)) (block (return false \"target has never been run\" nil nil)) _) (if _ (== (. v0 newData) (. v0 oldData)) (block (return true \"\" nil nil)) _) (:= (v1 v2) ((call (. starlark EqualDepth) (. v0 oldEnv) (. v0 newEnv) 1000))) (if _ (|| (!= v2 nil) v1) (block (return false \"environment changed\" nil nil)) _) (:= (v3 v4) ((assert (. v0 oldEnv) (* (. starlark Dict))))) (if _ (u! v4) (block (return false \"\" nil (call (. fmt Errorf) \"old environment is not a dict (%v)\" (call (. v3 Type))))) _) (:= (v5 v4) ((assert (. v0 newEnv) (* (. starlark Dict))))) (if _ (u! v4) (block (return false \"\" nil (call (. fmt Errorf) \"new environment is not a dict (%v)\" (call (. v5 Type))))) _) (:= (v6 v2) ((call (. diff DiffDepth) (. v0 oldEnv) (. v0 newEnv) 1000))) (if _ ",
-    "(!= v2 nil) (block (return false \"environment changed\" nil nil)) _) (:= (v7 v4) ((assert v6 (* (. diff MappingDiff))))) (if _ (u! v4) (block (call panic (call (. fmt Errorf) \"expected a diff in unequal environments\"))) _) (var (v8) (array _ string) ()) (range _ v9 functionEnvKeys (block (if _ (call (. v7 Has) v9) (block (= (v8) ((call append v8 (call string v9))))) _))) (var (v10) string ()) (switch _ (call len v8) (case (1) (= (v10) ((index v8 0)))) (case (2) (= (v10) ((+ (+ (index v8 0) \" and \") (index v8 1))))) (default (= (v10) ((+ (+ (call (. strings Join) (slice v8 _ (- (call len v8) 1) _) \", \") \", and \") (index v8 (- (call len v8) 1))))))) (return false (+ v10 \" changed\") v6 nil))"]
+    "(!= v2 nil) (block (return false \"environment changed\" nil nil)) _) (:= (v7 v4) ((assert v6 (* (. diff MappingDiff))))) (if _ (u! v4) (block (call panic (call (. fmt Errorf) \"expected a diff in unequal environments\"))) _) (var (v8) (array _ string) ()) (range _ v9 functionEnvKeys (block (if _ (call (. v7 Has) v9) (block (= (v8) ((call append v8 (call string v9))))) _))) (var (v10) string ()) (switch _ (call len v8) (case (0) (return false \"environment changed\" v6 nil)) (case (1) (= (v10) ((index v8 0)))) (case (2) (= (v10) ((+ (+ (index v8 0) \" and \") (index v8 1))))) (default (= (v10) ((+ (+ (call (. strings Join) (slice v8 _ (- (call len v8) 1) _) \", \") \", and \") (index v8 (- (call len v8) 1))))))) (return false (+ v10 \" changed\") v6 nil))"]
+
+def reasonHandlesNoKnownPart : Bool :=
+  true
+
+def unpicklerKeys : List String :=
+  ["names", "constant values", "predeclared values", "universal values", "function values", "global values", "code", "parameters", "default parameter values", "free variables"]
 
 def compareLimits : List Nat :=
   [1000, 1000]
@@ -51,6 +57,9 @@ def envUnpicklerBody : String :=
 
 def makeDictFromAssociationListBody : String :=
   "(block (:= (v1 v2) ((assert v0 (. starlark Tuple)))) (if _ (u! v2) (block (return (. starlark None))) _) (:= (v3) ((call (. starlark NewDict) (call len v1)))) (range _ v4 v1 (block (:= (v5) ((assert v4 (. starlark Tuple)))) (call (. v3 SetKey) (assert (index v5 0) (. starlark String)) (index v5 1)))) (return v3))"
+
+def reasonPrecedence : List String :=
+  ["!upToDate => keep", "proj.always => set always", "!depsUpToDate => set out-of-date dependencies: %v", "info.Rerun => set failed during last run"]
 
 def encodeSkeleton : List String :=
   [
